@@ -667,3 +667,17 @@ End ProtocolFinal.
 Lemma shared_stack_refuted_lem :
   exists sched, seen (agents (SharedStack.run 100 (shared_sys 11 22 33 44) sched) 0) <> story (shared_sys 11 22 33 44) 0.
 Proof. exists [0; 1; 0; 0]. destruct shared_stack_interference as [H1 H2]. rewrite H1, H2. discriminate. Qed.
+
+(* A second traversal of the same parallel map - new feeder, workers and collector state, another worker count,
+   another schedule - gives the outcome of the first one. *)
+Lemma iteration_is_repeatable_lem : forall (A B : Type) (f : nat -> A -> res B) (i0 nw1 nw2 : nat) (items : list (res A)) (sched1 sched2 : list choice),
+  let s1 := ParMap.run f log_yield (par_init i0 nw1 items ([] : list (res B))) sched1 in
+  let s2 := ParMap.run f log_yield (par_init i0 nw2 items ([] : list (res B))) sched2 in
+  complete s1 = true -> complete s2 = true ->
+  outcome (cst (col s1)) = outcome (cst (col s2)).
+Proof.
+  intros A B f i0 nw1 nw2 items sched1 sched2 s1 s2 H1 H2.
+  destruct (par_map_eq_seq_lem f i0 nw1 items sched1 H1) as (_ & E1).
+  destruct (par_map_eq_seq_lem f i0 nw2 items sched2 H2) as (_ & E2).
+  fold s1 in E1. fold s2 in E2. rewrite E1, E2. reflexivity.
+Qed.
